@@ -13,8 +13,15 @@ Scenarios:
          grants / does not grant http access; observes status codes
   dns    queries to an IPv4-only, an IPv6 and a second-address listener; observes the source address of
          each reply, REFUSED for clients without dns-recursion, forge-nxdomain, forwarding to a scripted upstream
+  ra     router solicitations (to ff02::2 and to the router's link-local address) from the client namespace on three
+         veth pairs whose router ends are configured explicitly / by top-level defaults / with nulls; every router
+         advertisement captured with its IPv6 source, destination and hop limit, next to the abstract configuration
+         and the environment (MAC, link MTU, interface addresses, default route) the advertisement must reflect
+  dhcpflow  DISCOVER -> OFFER -> REQUEST(selecting) -> ACK -> renewal (unicast, ciaddr) -> REQUEST naming a foreign
+         server -> INFORM -> DISCOVER with an 8-octet client-id -> RELEASE; every reply frame and the lease listing
+         (/api/v1/leases.json) after every step
 """
-import sys, os, json, subprocess, time, socket, struct, random, select, signal, tempfile
+import sys, os, json, subprocess, time, socket, struct, random, select, signal, tempfile, ipaddress
 
 
 def sh(cmd, check=True):
@@ -49,13 +56,38 @@ acls:
 """
 
 
-def setup_net():
+def ip_batch(lines, ns_pid=None, pre="", check=True):
+    """all the given `ip` commands in ONE process (process creation is what costs on a busy machine)"""
+    cmd = pre + "ip -batch -"
+    if ns_pid:
+        cmd = "nsenter -t %d -n sh -c '%s'" % (ns_pid, cmd)
+    p = subprocess.run(cmd, shell=True, input="\n".join(lines) + "\n", stdout=subprocess.PIPE, stderr=subprocess.STDOUT, text=True)
+    if check and p.returncode != 0:
+        raise RuntimeError("ip -batch failed: %s" % p.stdout[-400:])
+    return p
+
+
+def sysctl_here(path, val):
+    try:
+        with open("/proc/sys/net/" + path, "w") as f:
+            f.write("%s\n" % val)
+    except OSError:
+        pass
+
+
+def setup_net(ra=None):
     sh("mount -t tmpfs tmpfs /var/lib && mkdir -p /var/lib/erbium")
-    sh("ip link set lo up")
-    for a in ("127.0.0.2", "127.0.0.3", "127.0.0.4", "127.0.0.53"):
-        sh("ip addr add %s/8 dev lo" % a)
+    if ra:
+        # a router: forwarding on (the kernel then joins ff02::2 on every interface); no duplicate address
+        # detection, so that link-local addresses are usable at once
+        for k in ("all/accept_dad", "default/accept_dad", "default/dad_transmits"):
+            sysctl_here("ipv6/conf/" + k, 0)
+        sysctl_here("ipv6/conf/all/forwarding", 1)
+        sysctl_here("ipv6/conf/default/forwarding", 1)
     # second namespace for the DHCP client end of the veth pair
     holder = subprocess.Popen(["unshare", "--net", "sleep", "600"])
+    ip_batch(["link set lo up"] + ["addr add %s/8 dev lo" % a for a in ("127.0.0.2", "127.0.0.3", "127.0.0.4", "127.0.0.53")]
+             + ["link add veth0 type veth peer name veth1", "addr add 192.0.2.1/24 dev veth0"])
     # wait until the holder really lives in its own network namespace (the machine may be busy)
     mine = os.readlink("/proc/self/ns/net")
     for _ in range(300):
@@ -65,20 +97,40 @@ def setup_net():
         except OSError:
             pass
         time.sleep(0.05)
-    sh("ip link add veth0 type veth peer name veth1")
-    sh("ip link set veth1 netns %d" % holder.pid)
-    sh("ip addr add 192.0.2.1/24 dev veth0 && ip link set veth0 up")
+    pre = ""
+    if ra:
+        # the client end: no DAD, and the kernel itself neither solicits nor autoconfigures
+        pre = "".join("echo 0 > /proc/sys/net/ipv6/conf/%s; " % k for k in
+                      ("all/accept_dad", "default/accept_dad", "default/dad_transmits", "default/accept_ra", "all/accept_ra",
+                       "default/router_solicitations"))
+    extra = [(i["name"], i["peer"], i["link_mtu"]) for i in ra["ifaces"] if i["name"] != "veth0"] if ra else []
+    here = []
+    for dev, peer, mtu in extra:
+        here.append("link add %s type veth peer name %s" % (dev, peer))
+        if mtu:
+            here += ["link set %s mtu %d" % (dev, mtu), "link set %s mtu %d" % (peer, mtu)]
+    if pre:
+        subprocess.run("nsenter -t %d -n sh -c '%s'" % (holder.pid, pre), shell=True, stdout=subprocess.DEVNULL, stderr=subprocess.DEVNULL)
+    here += ["link set %s netns %d" % (peer, holder.pid) for peer in ["veth1"] + [e[1] for e in extra]]
+    here += ["link set %s up" % dev for dev in ["veth0"] + [e[0] for e in extra]]
+    if ra:
+        for i in ra["ifaces"]:
+            here += ["addr add %s dev %s nodad" % (a, i["name"]) for a in i["addrs"]]
+    ip_batch(here)
+    there = ["link set lo up"] + ["link set %s up" % peer for peer in ["veth1"] + [e[1] for e in extra]]
     for _ in range(50):
-        if subprocess.run("nsenter -t %d -n ip link set veth1 up" % holder.pid, shell=True, stdout=subprocess.DEVNULL, stderr=subprocess.DEVNULL).returncode == 0:
+        if ip_batch(there, holder.pid, check=False).returncode == 0:
             break
         time.sleep(0.1)
-    sh("nsenter -t %d -n ip link set lo up" % holder.pid, check=False)
+    mark("base network ready")
+    if ra:
+        setup_ra_net(holder, ra)
     return holder
 
 
-def start_erbium(binary, logpath):
+def start_erbium(binary, logpath, config=None):
     cfg = "/var/lib/erbium/erbium.conf"
-    open(cfg, "w").write(CONFIG)
+    open(cfg, "w").write(config or CONFIG)
     env = dict(os.environ, RUST_LOG="info", RUST_BACKTRACE="0")
     log = open(logpath, "w")
     p = subprocess.Popen([binary, cfg], stdout=log, stderr=subprocess.STDOUT, env=env)
@@ -183,6 +235,428 @@ def scenario_dhcp(holder, rnd):
         if m["kind"] == "discover":
             obs.append({"flags": m["flags"], "mac": m["mac"], "reply": r})
     return {"offers": obs}
+
+
+
+# ----------------------------------------------------------------------------- router advertisements
+# The configuration is held in the abstract form the model entry point reads (tools/rigcases.py turns it into
+# the token grammar of harness/src/bin/c17.rs); the YAML given to erbium is rendered from it.
+# tri-state values: ["absent"] | ["null"] | ["val", x]; durations are whole seconds.
+def ra_plan(rnd):
+    top = {"dns_servers": ["::", "2001:db8:0:53::53", "192.0.2.53"],          # "::" is $self6
+           "dns_search": ["lan.example.org", "example.net"],
+           "captive": "https://portal.example.org/top"}
+    plen64 = rnd.choice([32, 40, 48, 56, 64, 96])
+    explicit = {
+        "hop": rnd.choice([0, 64, 255]), "m": 0, "o": 1,
+        "lifetime": ["val", rnd.choice([65536, 70000, 86400, 4294967296])],   # beyond the 16-bit field: advertised as 65535
+        "reachable": rnd.choice([0, 30, 3600]), "retrans": rnd.choice([0, 2, 7]),
+        "mtu": ["val", rnd.choice([1280, 1480, 1500, 9000])],
+        "prefixes": [
+            {"addr": "2001:db8:1::", "len": 64, "onlink": 1, "auto": 1, "valid": 2592000, "preferred": 604800},
+            {"addr": "2001:db8:2:3:4:5:6:7", "len": rnd.choice([48, 56, 61]), "onlink": 0, "auto": 1,      # written with host bits
+             "valid": 7200, "preferred": 3600},
+            {"addr": "fd00:1::", "len": 64, "onlink": 1, "auto": 0, "valid": rnd.choice([172800, 4294967295, 4294967296]), "preferred": 3600},
+        ],
+        "rdnss_lt": ["val", rnd.choice([1200, 0, 4294967295])], "rdnss": ["val", ["::", "2001:db8:1::53"]],
+        "dnssl_lt": ["val", 900], "dnssl": ["val", ["rig.example.com", "a.b.example"]],
+        "cp": ["val", "https://veth0.example.org/portal?" + "x" * rnd.randrange(0, 9)],
+        "pref64": {"lifetime": rnd.choice([600, 601, 65528, 65529]),
+                   "prefix": "64:ff9b:1:2:3:4::" if plen64 != 96 else "64:ff9b::", "len": plen64},
+    }
+    defaults = {                                   # everything from the top level / the interface / the routing table
+        "hop": 0, "m": 0, "o": 0, "lifetime": ["absent"], "reachable": 0, "retrans": 0, "mtu": ["absent"],
+        "prefixes": [{"addr": "fd00:2::", "len": 64, "onlink": 1, "auto": 1, "valid": 2592000, "preferred": 604800}],
+        "rdnss_lt": ["absent"], "rdnss": ["absent"], "dnssl_lt": ["absent"], "dnssl": ["absent"], "cp": ["absent"], "pref64": None,
+    }
+    nulls = {                                      # null suppresses
+        "hop": 255, "m": 1, "o": 0, "lifetime": ["null"], "reachable": 0, "retrans": 0, "mtu": ["null"],
+        "prefixes": [{"addr": "2001:db8:4::", "len": 48, "onlink": 0, "auto": 0, "valid": 0, "preferred": 0}],
+        "rdnss_lt": ["absent"], "rdnss": ["null"], "dnssl_lt": ["absent"], "dnssl": ["null"], "cp": ["null"], "pref64": None,
+    }
+    return {"top": top, "style": rnd.randrange(1 << 16), "default_route_dev": "veth0", "ifaces": [
+        {"name": "veth0", "peer": "veth1", "addrs": ["2001:db8:1::1/64", "fd00:1::1/64"], "link_mtu": None, "cfg": explicit},
+        {"name": "veth2", "peer": "veth3", "addrs": ["fd00:2::1/64", "2001:db8:2::1/64"], "link_mtu": 1400, "cfg": defaults},
+        {"name": "veth4", "peer": "veth5", "addrs": [], "link_mtu": None, "cfg": nulls},
+    ]}
+
+
+def ydur(secs, style):
+    k = style % 4
+    if k == 1:
+        return "%ds" % secs
+    if k == 2 and secs > 0 and secs % 86400 == 0:
+        return "%dd" % (secs // 86400)
+    if k == 2 and secs > 0 and secs % 3600 == 0:
+        return "%dh" % (secs // 3600)
+    if k == 3 and secs >= 3600:
+        return "%dh %dm %ds" % (secs // 3600, secs % 3600 // 60, secs % 60)
+    return "%d" % secs
+
+
+def yaddr6(a):
+    return "$self6" if a == "::" else '"%s"' % a
+
+
+def ra_config_yaml(plan):
+    st = plan["style"]
+    top = plan["top"]
+    y = "dns-servers: [%s]\n" % ", ".join(yaddr6(a) if ":" in a else '"%s"' % a for a in top["dns_servers"])
+    y += "dns-search: [%s]\n" % ", ".join('"%s"' % d for d in top["dns_search"])
+    y += 'captive-portal: "%s"\n' % top["captive"]
+    y += "router-advertisements:\n"
+    for k, itf in enumerate(plan["ifaces"]):
+        c = itf["cfg"]
+        ind = "    "
+        y += "  %s:\n" % itf["name"]
+        y += "%smanaged: %s\n" % (ind, "true" if c["m"] else "false")
+        y += "%sother: %s\n" % (ind, "true" if c["o"] else "false")
+        if c["hop"]:
+            y += "%shop-limit: %d\n" % (ind, c["hop"])
+        for key, name in (("lifetime", "lifetime"),):
+            if c[key][0] == "null":
+                y += "%s%s: null\n" % (ind, name)
+            elif c[key][0] == "val":
+                y += "%s%s: %s\n" % (ind, name, ydur(c[key][1], st >> 1))
+        if c["reachable"]:
+            y += "%sreachable: %s\n" % (ind, ydur(c["reachable"], st >> 3))
+        if c["retrans"]:
+            y += "%sretransmit: %s\n" % (ind, ydur(c["retrans"], st >> 5))
+        if c["mtu"][0] == "null":
+            y += "%smtu: null\n" % ind
+        elif c["mtu"][0] == "val":
+            y += "%smtu: %d\n" % (ind, c["mtu"][1])
+        y += "%sprefixes:\n" % ind
+        for j, p in enumerate(c["prefixes"]):
+            y += '%s - prefix: "%s/%d"\n' % (ind, p["addr"], p["len"])
+            dflt = p["onlink"] and p["auto"] and p["valid"] == 2592000 and p["preferred"] == 604800
+            if not dflt:
+                y += "%s   on-link: %s\n" % (ind, "true" if p["onlink"] else "false")
+                y += "%s   autonomous: %s\n" % (ind, "true" if p["auto"] else "false")
+                y += "%s   valid: %s\n" % (ind, ydur(p["valid"], st >> (7 + j)))
+                y += "%s   preferred: %s\n" % (ind, ydur(p["preferred"], st >> (8 + j)))
+        for key, ltkey, name, sub in (("rdnss", "rdnss_lt", "dns-servers", "addresses"), ("dnssl", "dnssl_lt", "dns-search", "domains")):
+            if c[key][0] == "absent" and c[ltkey][0] == "absent":
+                continue
+            y += "%s%s:\n" % (ind, name)
+            if c[key][0] == "null":
+                y += "%s  %s: null\n" % (ind, sub)
+            elif c[key][0] == "val":
+                y += "%s  %s: [%s]\n" % (ind, sub, ", ".join(yaddr6(a) if key == "rdnss" else '"%s"' % a for a in c[key][1]))
+            if c[ltkey][0] == "null":
+                y += "%s  lifetime: null\n" % ind
+            elif c[ltkey][0] == "val":
+                y += "%s  lifetime: %s\n" % (ind, ydur(c[ltkey][1], st >> 11))
+        if c["cp"][0] == "null":
+            y += "%scaptive-portal: null\n" % ind
+        elif c["cp"][0] == "val":
+            y += '%scaptive-portal: "%s"\n' % (ind, c["cp"][1])
+        if c["pref64"]:
+            y += '%spref64:\n%s  prefix: "%s/%d"\n%s  lifetime: %s\n' % (ind, ind, c["pref64"]["prefix"], c["pref64"]["len"], ind,
+                                                                     ydur(c["pref64"]["lifetime"], st >> 13))
+    return y
+
+
+def addr_table(ns_pid=None):
+    """one `ip -j addr` call: {dev: {"mac":..., "mtu":..., "addrs": [(addr, tentative)]}}"""
+    cmd = "ip -j addr show"
+    if ns_pid:
+        cmd = "nsenter -t %d -n %s" % (ns_pid, cmd)
+    try:
+        j = json.loads(subprocess.run(cmd, shell=True, stdout=subprocess.PIPE, stderr=subprocess.DEVNULL, text=True).stdout or "[]")
+    except ValueError:
+        return {}
+    out = {}
+    for d in j:
+        out[d.get("ifname")] = {"mac": (d.get("address") or "").replace(":", ""), "mtu": d.get("mtu"),
+                                "addrs": [(a["local"], bool(a.get("tentative"))) for a in d.get("addr_info", []) if a.get("family") == "inet6"]}
+    return out
+
+
+def linklocals(tab, dev):
+    return [a for a, tent in tab.get(dev, {}).get("addrs", []) if a.lower().startswith("fe80") and not tent]
+
+
+def setup_ra_net(holder, plan):
+    if plan.get("default_route_dev"):
+        ip_batch(["route add default via fe80::fffe dev %s" % plan["default_route_dev"]])
+    for ns_pid, key in ((None, "name"), (holder.pid, "peer")):
+        for _ in range(100):
+            tab = addr_table(ns_pid)
+            if all(linklocals(tab, i[key]) for i in plan["ifaces"]):
+                break
+            time.sleep(0.1)
+        for i in plan["ifaces"]:
+            if key == "name":
+                i["ll"] = linklocals(tab, i["name"])
+                i["mac"] = tab.get(i["name"], {}).get("mac")
+                i["mtu_seen"] = tab.get(i["name"], {}).get("mtu")
+                i["all_addrs"] = [a for a, _ in tab.get(i["name"], {}).get("addrs", [])]
+            else:
+                i["peer_ll"] = linklocals(tab, i["peer"])
+                i["peer_mac"] = tab.get(i["peer"], {}).get("mac")
+    mark("ra network ready")
+
+
+RS_CLIENT = r"""
+import sys, socket, struct, json, select, time
+steps = json.loads(sys.stdin.read())
+out = []
+for st in steps:
+    dev = st["dev"]
+    idx = socket.if_nametoindex(dev)
+    rx = socket.socket(socket.AF_PACKET, socket.SOCK_RAW, socket.htons(0x86dd))
+    rx.bind((dev, 0))
+    tx = socket.socket(socket.AF_INET6, socket.SOCK_RAW, socket.IPPROTO_ICMPV6)
+    tx.setsockopt(socket.SOL_SOCKET, 25, dev.encode() + b"\0")
+    tx.setsockopt(socket.IPPROTO_IPV6, socket.IPV6_MULTICAST_HOPS, 255)
+    tx.setsockopt(socket.IPPROTO_IPV6, socket.IPV6_UNICAST_HOPS, 255)
+    tx.setsockopt(socket.IPPROTO_IPV6, socket.IPV6_MULTICAST_IF, idx)
+    rs = bytes([133, 0, 0, 0, 0, 0, 0, 0])
+    if st.get("sll"):
+        rs += bytes([1, 1]) + bytes.fromhex(st["sll"])
+    got, attempts = [], 0
+    while attempts < st.get("attempts", 2) and not got:
+        attempts += 1
+        while select.select([rx], [], [], 0)[0]:
+            rx.recv(65535)
+        try:
+            tx.sendto(rs, (st["dst"], 0, 0, idx))
+        except OSError as e:
+            got.append({"send_error": str(e)})
+            break
+        deadline = time.time() + st.get("wait", 6.0)
+        while time.time() < deadline:
+            r, _, _ = select.select([rx], [], [], max(0, deadline - time.time()))
+            if not r:
+                break
+            f = rx.recv(65535)
+            if len(f) < 14 + 40 + 8 or f[12:14] != b"\x86\xdd" or f[14 + 6] != 58 or f[54] != 134:
+                continue
+            plen = struct.unpack("!H", f[18:20])[0]
+            got.append({"src_mac": f[6:12].hex(), "dst_mac": f[0:6].hex(), "src": f[22:38].hex(), "dst": f[38:54].hex(),
+                        "hlim": f[21], "icmp": f[54:54 + plen].hex(), "frame_len": len(f), "plen": plen})
+            deadline = min(deadline, time.time() + st.get("linger", 0.4))     # a little longer, for duplicates
+    out.append({"dev": dev, "dst": st["dst"], "attempts": attempts, "ras": got})
+    rx.close(); tx.close()
+print(json.dumps(out))
+"""
+
+
+def scenario_ra(holder, plan, rnd):
+    time.sleep(1.0)                                  # the service learns interfaces and addresses over netlink
+    steps = []
+    for itf in plan["ifaces"]:
+        peer_mac = itf["peer_mac"]
+        kinds = [("ff02::2", peer_mac), ("ff02::2", None)]
+        if itf["ll"]:
+            kinds.append((itf["ll"][0], peer_mac))
+        rnd.shuffle(kinds)
+        for dst, sll in kinds:
+            steps.append({"dev": itf["peer"], "dst": dst, "sll": sll, "wait": 6.0, "attempts": 2})
+    p = subprocess.run(["nsenter", "-t", str(holder.pid), "-n", sys.executable, "-c", RS_CLIENT],
+                       input=json.dumps(steps), stdout=subprocess.PIPE, stderr=subprocess.PIPE, text=True, timeout=150)
+    if p.returncode != 0:
+        return {"error": p.stderr[-800:]}
+    return {"plan": plan, "solicitations": json.loads(p.stdout)}
+
+
+
+# ----------------------------------------------------------------------------- DHCP: whole exchanges
+def dhcp_msg(xid, mac, flags, msgtype, opts=b"", hlen=6, ciaddr="0.0.0.0", htype=1):
+    chaddr = (mac + b"\0" * 16)[:16]
+    p = struct.pack("!BBBBIHH", 1, htype, hlen, 0, xid, 0, flags) + socket.inet_aton(ciaddr) + b"\0" * 12
+    p += chaddr + b"\0" * 192 + bytes([99, 130, 83, 99]) + bytes([53, 1, msgtype]) + opts + b"\xff"
+    return p
+
+
+def opt(code, data):
+    return bytes([code, len(data)]) + data
+
+
+FLOW_CLIENT = r"""
+import sys, socket, struct, json, select, time
+tx = socket.socket(socket.AF_INET, socket.SOCK_DGRAM)
+tx.setsockopt(socket.SOL_SOCKET, socket.SO_BROADCAST, 1)
+tx.setsockopt(socket.SOL_SOCKET, socket.SO_REUSEADDR, 1)
+tx.setsockopt(socket.SOL_SOCKET, 25, b"veth1\0")     # SO_BINDTODEVICE
+tx.bind(("0.0.0.0", 68))
+rx = socket.socket(socket.AF_PACKET, socket.SOCK_RAW, socket.htons(0x0800))
+rx.bind(("veth1", 0))
+
+def parse(f):
+    if len(f) < 42 or f[12:14] != b"\x08\x00" or f[23] != 17 or (f[14] & 15) != 5:
+        return None
+    sport, dport = struct.unpack("!HH", f[34:38])
+    if sport != 67:
+        return None
+    p = f[42:]
+    if len(p) < 240 or p[236:240] != bytes([99, 130, 83, 99]):
+        return None
+    opts, i = {}, 240
+    while i < len(p) and p[i] != 255:
+        if p[i] == 0:
+            i += 1
+            continue
+        if i + 1 >= len(p):
+            break
+        opts[str(p[i])] = opts.get(str(p[i]), "") + p[i + 2:i + 2 + p[i + 1]].hex()
+        i += 2 + p[i + 1]
+    return {"dst_mac": f[0:6].hex(), "src_mac": f[6:12].hex(), "dst_ip": socket.inet_ntoa(f[30:34]), "src_ip": socket.inet_ntoa(f[26:30]),
+            "dport": dport, "op": p[0], "htype": p[1], "hlen": p[2], "hops": p[3], "xid": struct.unpack("!I", p[4:8])[0],
+            "flags": struct.unpack("!H", p[10:12])[0], "ciaddr": socket.inet_ntoa(p[12:16]), "yiaddr": socket.inet_ntoa(p[16:20]),
+            "giaddr": socket.inet_ntoa(p[24:28]), "chaddr": p[28:44].hex(), "options": opts}
+
+for line in sys.stdin:
+    cmd = json.loads(line)
+    res = None
+    if cmd["op"] == "send":
+        try:
+            tx.sendto(bytes.fromhex(cmd["hex"]), (cmd["dst"], 67))
+            res = {"sent": True}
+        except OSError as e:
+            res = {"sent": False, "error": str(e)}
+    elif cmd["op"] == "collect":          # the first server frame carrying this xid, within `wait` seconds
+        deadline = time.time() + cmd["wait"]
+        while True:
+            r, _, _ = select.select([rx], [], [], max(0, deadline - time.time()))
+            if not r:
+                break
+            m = parse(rx.recv(65535))
+            if m and m["xid"] == cmd["xid"]:
+                res = m
+                break
+    elif cmd["op"] == "quit":
+        break
+    sys.stdout.write(json.dumps(res) + "\n")
+    sys.stdout.flush()
+"""
+
+
+def http_body(src, dst, port, path):
+    s = socket.socket(socket.AF_INET, socket.SOCK_STREAM)
+    s.settimeout(10)
+    try:
+        s.bind((src, 0))
+        s.connect((dst, port))
+        s.sendall(("GET %s HTTP/1.1\r\nHost: x\r\nConnection: close\r\n\r\n" % path).encode())
+        data = b""
+        while True:
+            d = s.recv(65536)
+            if not d:
+                break
+            data += d
+    finally:
+        s.close()
+    head, _, body = data.partition(b"\r\n\r\n")
+    status = int(head.split(b"\r\n", 1)[0].split()[1])
+    if b"chunked" in head.lower():
+        out, rest = b"", body
+        while rest:
+            ln, _, rest = rest.partition(b"\r\n")
+            n = int(ln.split(b";")[0] or b"0", 16)
+            if n == 0:
+                break
+            out += rest[:n]
+            rest = rest[n + 2:]
+        body = out
+    return status, body
+
+
+def lease_listing():
+    """the rows of /api/v1/leases.json as sorted [ip, client_id, start, expire] lists (None when it cannot be read)"""
+    for _ in range(3):                     # reading the listing has no effect on the server: retrying hides nothing
+        try:
+            st, body = http_body("127.0.0.1", "127.0.0.1", 9968, "/api/v1/leases.json")
+            if st == 200:
+                j = json.loads(body.decode())
+                return sorted([l["ip"], l["client_id"], l["start"], l["expire"]] for l in j["leases"])
+        except (OSError, ValueError, KeyError, IndexError):
+            pass
+        time.sleep(0.3)
+    return None
+
+
+def scenario_dhcpflow(holder, rnd, logpath):
+    cl = subprocess.Popen(["nsenter", "-t", str(holder.pid), "-n", sys.executable, "-u", "-c", FLOW_CLIENT],
+                          stdin=subprocess.PIPE, stdout=subprocess.PIPE, stderr=subprocess.PIPE, text=True)
+
+    def call(**cmd):
+        cl.stdin.write(json.dumps(cmd) + "\n")
+        cl.stdin.flush()
+        line = cl.stdout.readline()
+        if not line:
+            raise RuntimeError("dhcp flow client died: " + cl.stderr.read()[-400:])
+        return json.loads(line)
+
+    def silent_marks():
+        try:
+            return open(logpath).read().count("Failed to handle")
+        except OSError:
+            return 0
+
+    steps = []
+    server = "192.0.2.1"
+    xid = [rnd.randrange(0x10000, 0x7fff0000)]
+
+    def step(name, msgtype, sid_class, mac, flags, opts=b"", ciaddr="0.0.0.0", dst="255.255.255.255", expect=True, client_id=None):
+        """send one message; a reply is awaited for up to 10 s when one is expected.  When none is expected the
+        window ends when the server has logged that it dropped the message (plus a grace period) -- never a retry."""
+        xid[0] += 1
+        x = xid[0]
+        if client_id is not None:
+            opts = opt(61, client_id) + opts
+        pkt = dhcp_msg(x, mac, flags, msgtype, opts, ciaddr=ciaddr)
+        before = lease_listing()
+        marks = silent_marks()
+        sent = call(op="send", hex=pkt.hex(), dst=dst)
+        reply, processed = None, False
+        t_end = time.time() + 10.0
+        while time.time() < t_end:
+            reply = call(op="collect", xid=x, wait=0.25)
+            if reply:
+                processed = True
+                break
+            if silent_marks() > marks:
+                processed = True
+                reply = call(op="collect", xid=x, wait=0.7)      # grace: a reply that follows the log line
+                break
+        after = lease_listing()
+        st = {"name": name, "msgtype": msgtype, "sid_class": sid_class, "expect": expect, "sent_ok": sent.get("sent"),
+              "xid": x, "mac": mac.hex(), "chaddr": (mac + b"\0" * 16)[:16].hex(), "flags": flags, "ciaddr": ciaddr, "dst": dst,
+              "client_id": (client_id if client_id is not None else mac[:6]).hex(), "reply": reply, "processed": processed,
+              "before": before, "after": after}
+        steps.append(st)
+        return reply
+
+    try:
+        mac_a = bytes([2, 0, 0, 0, 2, rnd.randrange(1, 250)])
+        mac_b = bytes([2, 0, 0, 0, 3, rnd.randrange(1, 250)])
+        fl = rnd.choice([0, 0x8000])
+        offer = step("discover", 1, 0, mac_a, fl)
+        if offer and "54" in offer["options"]:
+            y = offer["yiaddr"]
+            sid = bytes.fromhex(offer["options"]["54"])
+            ack = step("request-selecting", 3, 1, mac_a, fl, opt(54, sid) + opt(50, socket.inet_aton(y)))
+            if ack:
+                # the client now uses the address, like a real one, so that it can unicast
+                ip_batch(["addr add %s/24 dev veth1" % ack["yiaddr"]], holder.pid, check=False)
+                step("request-renewing", 3, 0, mac_a, 0, ciaddr=ack["yiaddr"], dst=server)
+            step("request-foreign-server", 3, 2, mac_a, fl, opt(54, socket.inet_aton("192.0.2.99")) + opt(50, socket.inet_aton(y)), expect=False)
+            if ack:
+                step("inform", 8, 0, mac_a, 0, ciaddr=ack["yiaddr"], dst=server, expect=False)
+            cid = bytes([0]) + bytes(rnd.randrange(256) for _ in range(7))        # 8 octets, while hlen is 6
+            step("discover-long-client-id", 1, 0, mac_b, 0x8000 - fl, client_id=cid)
+            step("decline", 4, 1, mac_a, fl, opt(54, sid) + opt(50, socket.inet_aton(y)), expect=False)
+            if ack:
+                step("release", 7, 1, mac_a, 0, opt(54, sid), ciaddr=ack["yiaddr"], dst=server, expect=False)
+    finally:
+        try:
+            call(op="quit")
+        except Exception:
+            pass
+        cl.kill()
+    return {"server": server, "steps": steps}
 
 
 # ----------------------------------------------------------------------------- HTTP
@@ -357,6 +831,14 @@ def scenario_dns(rnd, hostile_too=False):
     return {"queries": out, "hostile": hostile}
 
 
+T0 = time.time()
+
+
+def mark(what):
+    if os.environ.get("RIG_TIMING"):
+        sys.stderr.write("[rig %6.2f] %s\n" % (time.time() - T0, what))
+
+
 def inner(argv):
     binary = argv[0]
     scenarios = argv[1].split(",")
@@ -369,8 +851,13 @@ def inner(argv):
     p = None
     logpath = tempfile.mktemp(prefix="erbium-rig-", suffix=".log", dir="/var/tmp" if os.path.isdir("/var/tmp") else None)
     try:
-        holder = setup_net()
-        p = start_erbium(binary, logpath)
+        plan = ra_plan(random.Random(seed * 7919 + 17)) if "ra" in scenarios else None
+        mark("start")
+        holder = setup_net(plan)
+        mark("network ready")
+        config = CONFIG + ra_config_yaml(plan) if plan else CONFIG
+        p = start_erbium(binary, logpath, config)
+        mark("erbium started")
         if p.poll() is not None:
             res["startup_error"] = open(logpath).read()[-1500:]
         else:
@@ -381,8 +868,17 @@ def inner(argv):
                     res["http"] = scenario_http(rnd)
                 elif sc == "dns":
                     res["dns"] = scenario_dns(rnd)
+                elif sc == "ra":
+                    res["ra"] = scenario_ra(holder, plan, rnd)
+                elif sc == "dhcpflow":
+                    res["dhcpflow"] = scenario_dhcpflow(holder, rnd, logpath)
+                    lost = [st["name"] for st in res["dhcpflow"]["steps"] if not st["expect"] and not st["processed"]]
+                    if lost:
+                        # neither answered nor logged as dropped within 10 s: "no reply" would not be an observation
+                        res["rig_error"] = "dhcpflow: the server gave no sign of having seen: %s" % ", ".join(lost)
                 elif sc == "dnshostile":
                     res["dns"] = scenario_dns(rnd, hostile_too=True)
+                mark("scenario %s done" % sc)
             res["alive_at_end"] = p.poll() is None
             log = open(logpath).read()
             res["panics_in_log"] = log.count("panicked at")
